@@ -147,6 +147,7 @@ func runC10(c *Ctx, tier string) {
 	runSpillRunsShareContext(c, "C10-X1")
 	runPartialRecombinationNoPanic(c, "C10-P3")
 	runSpillKeyOrderTotal(c, "C10-K2")
+	runInputSortDirFirstKeyOnly(c, "C10-I1")
 }
 
 func recvType(cc *ssa.CallCommon) types.Type {
